@@ -335,7 +335,25 @@ func c05Oracle(sp *c05Spec, out *c05Out) *c05Verdict {
 				default:
 					gapMs := (s.timeoutT - lastT) / 1e6
 					if gapMs >= int64(sp.StopTimeoutMs/2) {
-						add("C05:P3:stop-waited-out-timeout", fmt.Sprintf("stop of %s waited out the stop timeout although its stop routine and all %d work items had returned %d ms earlier", m, len(before), gapMs),
+						pre := ""
+						for _, ms := range sp.Mods {
+							if ms.Name != m {
+								continue
+							}
+							if ms.StopPanic {
+								pre = ":stop-routine-panicked"
+							}
+							for _, it := range ms.Items {
+								switch {
+								case pre != "":
+								case it.PanicAtEnd:
+									pre = ":work-item-panicked"
+								case it.Kind == kSvc && it.Restarts >= 2 && it.BackoffMs >= sp.StopTimeoutMs:
+									pre = ":service-worker-backing-off"
+								}
+							}
+						}
+						add("C05:P3:stop-waited-out-timeout"+pre, fmt.Sprintf("stop of %s waited out the stop timeout although its stop routine and all %d work items had returned %d ms earlier", m, len(before), gapMs),
 							witness(s, nil, map[string]any{"idle_ms_before_timeout": gapMs, "counts_at_end": out.Counts}))
 					} else {
 						v.Inconcl = append(v.Inconcl, fmt.Sprintf("case %d (%s): stop timeout of %s fired only %d ms after the last return", sp.Case, sp.Class, m, gapMs))
